@@ -292,7 +292,7 @@ func (h *c14H) render(out string) string {
 	}
 	return fmt.Sprintf("%s L=%s last=%d M=%s B=%s Q=%s A=%s S=%s W=%s O=%s U=%s t=%d h=%d P=%s G=%s I=%s", out, c14Join(L, ","), last, c14Join(M, ","),
 		c14Join(B, ";"), c14Join(Q, ";"), c14Join(A, ";"), c14Join(S, ","), c14Join(W, ";"), c14Join(O, ";"), c14Join(U, "."),
-		int64(h.f.Time.Sub(BaseTime)), h.f.Height, P, c14Join(G, "."), c14Join(I, "."))
+		int64(h.f.Time.Sub(BaseTime)), h.f.Height, P, c14Join(G, "."), c14Join(I, ".")) + h.renderRefs(ctx, c14Join(G, "."))
 }
 
 // maturedByIterator walks LockIteratorBeforeTime(block time) — the iterator WithdrawAllMaturedLocks uses —
@@ -734,6 +734,8 @@ func (h *c14H) monitor(op c14Op, pre, post c14Snap, err error) {
 			h.viol("C14/index/matured-iterator-differs", fmt.Sprintf("LockIteratorBeforeTime %v, stored %v", got, want))
 		}
 	}
+	// --- every index-driven query against the lock table (c14_refs_test.go)
+	h.monitorRefs(ctx, post)
 	// --- ids are never reused
 	if post.last < pre.last {
 		h.viol("C14/ids/last-lock-id-decreased", fmt.Sprintf("%d -> %d", pre.last, post.last))
@@ -1517,6 +1519,9 @@ func TestC14(t *testing.T) {
 		}
 		r.Hit("fixed/directed-trace")
 		h.finishTrace()
+	}
+	if h.f != nil {
+		c14BlockedOwnerProbe(h)
 	}
 	nTraces := r.N(300, 3600)
 	for i := 0; i < nTraces; i++ {
